@@ -39,8 +39,14 @@ func ruleSAVEDONLY(w *World, r *Report) {
 		n++
 		ok := false
 		for _, c := range cmpsAt(ap.Block()) {
-			if c.Y == nil && c.Op == token.NEQ && callOf(c.X, "(par1.fileEntryStatus).savedInVolumeSet") != nil {
-				ok = true
+			if c.Y != nil || c.Op != token.NEQ {
+				continue
+			}
+			// the status method itself or a wrapper of the same name on the entry
+			if cl, isCall := stripConv(c.X).(*ssa.Call); isCall {
+				if f := cl.Call.StaticCallee(); f != nil && f.Name() == "savedInVolumeSet" && w.fnPkg(f) == "par1" {
+					ok = true
+				}
 			}
 		}
 		if ok {
@@ -431,10 +437,17 @@ func ruleINVSOLVE(w *World, r *Report) {
 			r.unk("INVSOLVE", name, "", "function not found")
 			continue
 		}
-		for i, ret := range successReturns(fn) {
+		// returns whose error may be nil (`return x, nil` and `return m.RowReduceForInverse(...)` alike)
+		var rets []*ssa.Return
+		for _, b := range fn.Blocks {
+			if ret, ok := b.Instrs[len(b.Instrs)-1].(*ssa.Return); ok && len(ret.Results) == 2 && !definitelyNonNilError(ret.Results[1]) {
+				rets = append(rets, ret)
+			}
+		}
+		for i, ret := range rets {
 			key := fmt.Sprintf("%s:return#%d", name, i)
 			n++
-			if mustPassCall(ret, "(gf2p16.Matrix).rowReduceForInverse", 0) {
+			if mustPassCall(ret, "(gf2p16.Matrix).rowReduceForInverse", 0) || (name != "(gf2p16.Matrix).RowReduceForInverse" && mustPassCall(ret, "(gf2p16.Matrix).RowReduceForInverse", 0)) {
 				r.ok("INVSOLVE", key, w.ipos(ret), "result produced by rowReduceForInverse")
 			} else {
 				r.bad("INVSOLVE", key, w.ipos(ret), "a result is returned without going through rowReduceForInverse: a hand-written special case")
